@@ -13,7 +13,11 @@ tvars == <<cfg, tid, l, cur, emit, logd, bos, absS>>
 
 MergeD(c, d) == [k \in DOMAIN c |-> IF k \in DOMAIN d THEN d[k] ELSE c[k]]
 
-Norm(T) == [T EXCEPT !.queue = NoStop(@), !.sch.status = ""]
+(* the schedule status is compared exactly for the policies that never report *)
+(* a delayed workflow themselves; plan-following / greedy may also set it     *)
+(* (workflow started later than planned), which the specification leaves open *)
+Norm(T) == [T EXCEPT !.queue = NoStop(@),
+                     !.sch.status = IF cfg.alg \in {"plan", "greedy"} THEN "" ELSE @]
 MatchS(T, B) == Norm(T) = Norm(B)
 StatusOK(A, B) == A.sch.status = "DELAYED" => B.sch.status = "DELAYED"
 
